@@ -296,7 +296,8 @@ class XmlContext:
             builder = self.get_builder()
             target_qname = builder.build_class_meta(clazz).target_qname
             if target_qname and target_qname in self.xsi_cache:
-                self.xsi_cache[target_qname].remove(clazz)
+                types = self.xsi_cache[target_qname]
+                self.xsi_cache[target_qname] = [tp for tp in types if tp is not clazz]
 
             return False
 
